@@ -117,17 +117,17 @@ def c15_2(c: Ctx) -> None:
             else:
                 c.fail(u, '_on_idle.set() in stop() before _is_running = False', 'waiters are released while the bus can still take events', node=call)
             continue
-        gi = q.enclosing(call, (ast.If,))
-        ok = False
-        if gi is not None and isinstance(gi.test, ast.UnaryOp) and isinstance(gi.test.op, ast.Not):
-            dis = idle_disjuncts(gi.test.operand, self_)
-            ok = {'pending', 'started', 'qsize'} <= dis and not any(x.startswith('?') for x in dis)
-            # directly in the body: nothing (in particular no await) between the test and the set
-            ok = ok and any(s is q.stmt_of(call) for s in gi.body) and not any(isinstance(x, ast.Await) for s in gi.body[: [id(s) for s in gi.body].index(id(q.stmt_of(call)))] for x in ast.walk(s))
-        if ok:
-            c.ok(where(u, call), f'flag set only under `{U(gi.test)[:80]}`')
+        g = c.cfg(u)
+        qs = [U(x) for x in own_nodes(u.node) if isinstance(x, ast.Call) and call_name(x) == 'qsize' and 'event_queue' in U(x)]
+        qatom = qs[0] if qs else f'{self_}.event_queue.qsize()'
+        atoms = {f'{self_}.events_pending', f'{self_}.events_started', qatom}
+        facts = Facts(lambda a: a in atoms, cg=c.cg, unit=u)
+        guard = f'not ({self_}.events_pending or {self_}.events_started or {qatom})'
+        bad = [p for n in g.nodes_of(q.stmt_of(call)) if (p := q.guard_search(g, n, guard, facts)) is not None]
+        if not bad:
+            c.ok(where(u, call), f'flag set only when `{guard}` is known')
         else:
-            c.fail(u, f'_on_idle.set() not under the full idle predicate (guard: {U(gi.test)[:70] if gi is not None else "none"})', 'the bus reports idle while events are queued, pending or started: wait_until_idle returns early', node=call)
+            c.fail(u, f'_on_idle.set() not under the full idle predicate `{guard}`', 'the bus reports idle while events are queued, pending or started: wait_until_idle returns early', node=call, witness=c.path(g.entry, bad[0]))
     st = c.unit(SVC, 'EventBus.step')
     g = c.cfg(st)
     from sa.cfg import search
@@ -167,6 +167,67 @@ def c15_3(c: Ctx) -> None:
             c.ok(where(u, fw.ast), 'the idle-flag wait is reached only after awaiting event_queue.join()')
         else:
             c.fail(u, 'idle-flag wait reachable without awaiting event_queue.join()', 'wait_until_idle does not wait for events that are still queued', node=fw.ast, witness=c.path(g.entry, p))
+
+
+@ob('C15.6', 'EFFECT', 'the run loop re-evaluates idleness within bounded time: every wait of the idle poll (_get_next_event) is bounded by the finite poll timeout, and the '
+    'only unbounded await there is on the get-task the bounded wait has just reported done (a waiter that cleared the flag is woken again)')
+def c15_6(c: Ctx) -> None:
+    u = c.unit(SVC, 'EventBus._get_next_event')
+    g = c.cfg(u)
+    aws = sorted([n for n in own_nodes(u.node) if isinstance(n, ast.Await)], key=lambda n: n.lineno)
+    c.floor(len(aws), 1, 'awaits in _get_next_event')
+    a_ = u.node.args
+    params = {x.arg: x for x in a_.posonlyargs + a_.args + a_.kwonlyargs}
+    defaults = dict(zip([x.arg for x in (a_.posonlyargs + a_.args)][len(a_.posonlyargs + a_.args) - len(a_.defaults):], a_.defaults))
+    rebound = {U(n.targets[0] if isinstance(n, ast.Assign) else n.target) for n in own_nodes(u.node) if isinstance(n, (ast.Assign, ast.AnnAssign, ast.AugAssign))}
+    done_sets: dict[str, str] = {}
+    for n in own_nodes(u.node):
+        if isinstance(n, ast.Assign) and isinstance(n.targets[0], ast.Tuple) and isinstance(n.value, ast.Await) and isinstance(n.value.value, ast.Call) and U(n.value.value.func) == 'asyncio.wait':
+            tasks = {x.id for x in ast.walk(n.value.value.args[0]) if isinstance(x, ast.Name)} if n.value.value.args else set()
+            for t in tasks:
+                done_sets[t] = U(n.targets[0].elts[0])
+    for a in aws:
+        v = a.value
+        if isinstance(v, ast.Call) and U(v.func) in ('asyncio.wait', 'asyncio.wait_for'):
+            to = q.kw(v, 'timeout') or (v.args[1] if U(v.func) == 'asyncio.wait_for' and len(v.args) > 1 else None)
+            finite = False
+            if isinstance(to, ast.Constant) and isinstance(to.value, (int, float)) and not isinstance(to.value, bool):
+                finite = True
+            elif isinstance(to, ast.Name) and to.id in params and to.id not in rebound:
+                ann = U(params[to.id].annotation) if params[to.id].annotation is not None else ''
+                d = defaults.get(to.id)
+                finite = 'None' not in ann and 'Optional' not in ann and (d is None or (isinstance(d, ast.Constant) and isinstance(d.value, (int, float))))
+            if finite:
+                c.ok(where(u, a), f'poll wait bounded: {U(v)[:70]}')
+            else:
+                c.fail(u, f'idle poll waits with timeout={U(to) if to is not None else "None"}', 'the run loop can sleep without bound while the bus is idle: a wait_until_idle() that has just cleared the idle flag is never woken again (it hangs although the bus is idle)', node=a)
+        elif isinstance(v, ast.Name) and v.id in done_sets:
+            facts = Facts(lambda x: x == done_sets[v.id], cg=c.cg, unit=u)
+            bad = [p for n in g.nodes_of(q.stmt_of(a)) if (p := q.guard_search(g, n, done_sets[v.id], facts)) is not None]
+            if not bad:
+                c.ok(where(u, a), f'`await {v.id}` only after the bounded wait reported it done')
+            else:
+                c.fail(u, f'await {v.id} reachable without the wait having reported it done', 'the run loop can block without bound on an empty queue: idleness is never re-evaluated', node=a, witness=c.path(g.entry, bad[0]))
+        else:
+            c.fail(u, f'unbounded await in the idle poll: {U(v)[:70]}', 'the run loop can block without bound: idleness is never re-evaluated and wait_until_idle() can hang although the bus is idle', node=a)
+    # the caller must pass a finite poll timeout too
+    st = c.unit(SVC, 'EventBus.step')
+    for cu, call in c.cg.callers(u):
+        v = q.kw(call, 'wait_for_timeout') or (call.args[0] if call.args else None)
+        if v is None:
+            c.ok(where(cu, call), 'poll timeout left at its finite default')
+        elif isinstance(v, ast.Constant) and isinstance(v.value, (int, float)):
+            c.ok(where(cu, call), f'poll timeout {v.value}')
+        elif isinstance(v, ast.Name) and v.id in cu.params():
+            ca = cu.node.args
+            cd = dict(zip([x.arg for x in (ca.posonlyargs + ca.args)][len(ca.posonlyargs + ca.args) - len(ca.defaults):], ca.defaults))
+            d = cd.get(v.id)
+            if isinstance(d, ast.Constant) and isinstance(d.value, (int, float)) and not isinstance(d.value, bool):
+                c.ok(where(cu, call), f'poll timeout forwarded from {cu.name}({v.id}={d.value})')
+            else:
+                c.fail(cu, f'poll timeout forwarded from a parameter without a finite default: {v.id}', 'the idle poll may be unbounded', node=call)
+        else:
+            c.fail(cu, f'poll timeout is {U(v)[:40]}', 'the idle poll may be unbounded', node=call)
 
 
 @ob('C15.4', 'PAIR', 'every dequeue is balanced by task_done() on every exit (same obligation as C10.5): otherwise join() never returns')
